@@ -98,6 +98,12 @@ def withRoom (sim : Sim) (e : Event) : Sim :=
 
 def anyChan (s : State) : Bool := s.ops.any fun o => !o.chan.isEmpty
 
+/-- `Proactor::flush` on io_uring: `arm_notifier` (through `push_raw`), then submit; completions are not looked at
+unless the notifier push overflowed the SQ -/
+def iourFlush (sim : Sim) : Sim :=
+  let sim := if sim.st.needNotifier then withRoom sim .pushNotifier else sim
+  doSubmit sim
+
 /-- one `Proactor::poll(Some(ZERO))` on io_uring -/
 def iourPollOnce (sim : Sim) : Sim :=
   if anyChan sim.st then ev sim .pollBlocking
@@ -163,11 +169,25 @@ def pdropUnsafe (sim : Sim) : Bool :=
   let sim' := evs sim (.dropBegin :: List.replicate (dropProg Cfg.gen sim.st.drv).length .dropStep)
   sim'.st.ops.any (·.uaf)
 
+/-- guards shared with the interpreter: a line that addresses a dropped proactor / a key the caller no
+longer holds / a missing token or gate is a no-op with a fixed answer -/
+def withKey (sim : Sim) (id : String) (needAlive : Bool) (f : Nat → Op → Sim × String) : Sim × String :=
+  match id.toNat? with
+  | some id =>
+    match opOf sim id with
+    | some o =>
+      if needAlive ∧ !sim.st.alive then line sim "noproactor"
+      else if o.user = 0 then line sim "nokey"
+      else f id o
+    | none => (sim, "bad-op")
+  | none => (sim, "bad-op")
+
 def exec (sim : Sim) (w : List String) : Sim × String :=
   match w with
   | ["push", k, fd] =>
     match parseKind k, fd.toNat? with
     | some hk, some fd =>
+      if !sim.st.alive then line sim "noproactor" else
       let sim := { sim with hk := sim.hk ++ [hk] }
       match hk, sim.st.drv with
       | .blk, _ => line (ev sim .pushBlocking) "pending"
@@ -187,71 +207,56 @@ def exec (sim : Sim) (w : List String) : Sim × String :=
       let sim := if sim.st.drv = .iour ∧ sim.st.ring then kernelData sim else sim
       line sim "ok"
     | _, _ => (sim, "bad-op")
-  | ["poll"] => line (settle sim) "ok"
+  | ["poll"] => if !sim.st.alive then line sim "noproactor" else line (settle sim) "ok"
   | ["flush"] =>
+    if !sim.st.alive then line sim "noproactor" else
     match sim.st.drv with
-    | .iour => line (doSubmit sim) "ok"
+    | .iour => line (iourFlush sim) "ok"
     | .poll => line sim "ok"
   | ["pop", id] =>
-    match id.toNat? with
-    | some id =>
-      match opOf sim id with
-      | some o =>
-        let out := match o.result with
-          | some r => if o.rc = 1 then showRes r else "panic"
-          | none => "pending"
-        line (ev sim (.userPop id)) out
-      | none => (sim, "bad-op")
-    | none => (sim, "bad-op")
+    withKey sim id true fun id o =>
+      let out := match o.result with
+        | some r => if o.rc = 1 then showRes r else "panic"
+        | none => "pending"
+      line (ev sim (.userPop id)) out
   | ["popm", id] =>
-    match id.toNat? with
-    | some id =>
-      match opOf sim id with
-      | some o =>
-        let out := match o.multi.head? with
-          | some r => showRes r
-          | none => "none"
-        line (ev sim (.popMulti id)) out
-      | none => (sim, "bad-op")
-    | none => (sim, "bad-op")
+    withKey sim id true fun id o =>
+      let out := match o.multi.head? with
+        | some r => showRes r
+        | none => "none"
+      line (ev sim (.popMulti id)) out
   | ["cancel", id] =>
-    match id.toNat? with
-    | some id =>
-      match opOf sim id with
-      | some o =>
-        let out := match o.result with
-          | some r => if !o.cancelled ∧ o.rc = 1 then s!"some:{showRes r}" else "none"
-          | none => "none"
-        line (ev sim (.userCancel id)) out
-      | none => (sim, "bad-op")
-    | none => (sim, "bad-op")
-  | ["ccancel", id] =>
-    match id.toNat? with
-    | some id => line (ev sim (.cloneCancel id)) "none"
-    | none => (sim, "bad-op")
-  | ["drop", id] =>
-    match id.toNat? with
-    | some id => line (ev sim (.userDrop id)) "ok"
-    | none => (sim, "bad-op")
-  | ["token", id] =>
-    match id.toNat? with
-    | some id => line (ev sim (.tokenRegister id)) "ok"
-    | none => (sim, "bad-op")
+    withKey sim id true fun id o =>
+      let out := match o.result with
+        | some r => if !o.cancelled ∧ o.rc = 1 then s!"some:{showRes r}" else "none"
+        | none => "none"
+      line (ev sim (.userCancel id)) out
+  | ["ccancel", id] => withKey sim id true fun id _ => line (ev sim (.cloneCancel id)) "none"
+  | ["drop", id] => withKey sim id false fun id _ => line (ev sim (.userDrop id)) "ok"
+  | ["token", id] => withKey sim id true fun id _ => line (ev sim (.tokenRegister id)) "ok"
   | ["tcancel", id] =>
     match id.toNat? with
     | some id =>
       match opOf sim id with
-      | some o => line (ev sim (.tokenCancel id)) (toString (cancelTokRet o))
+      | some o =>
+        if !sim.st.alive then line sim "noproactor"
+        else if o.weak = 0 then line sim "notoken"
+        else line (ev sim (.tokenCancel id)) (toString (cancelTokRet o))
       | none => (sim, "bad-op")
     | none => (sim, "bad-op")
   | ["gate", id] =>
     match id.toNat? with
     | some id =>
-      let sim := ev sim (.poolDone id (okRes .blk))
-      line (if sim.st.alive then settle sim else sim) "ok"
+      match opOf sim id with
+      | some o =>
+        if !o.poolRun then line sim "nogate" else
+        let sim := ev sim (.poolDone id (okRes .blk))
+        line (if sim.st.alive then settle sim else sim) "ok"
+      | none => (sim, "bad-op")
     | none => (sim, "bad-op")
   | ["pdrop"] =>
-    if pdropUnsafe sim then ({ sim with dead := true }, s!"unsafe-skip | {statusVec sim.st}")
+    if !sim.st.alive then line sim "noproactor"
+    else if pdropUnsafe sim then ({ sim with dead := true }, s!"unsafe-skip | {statusVec sim.st}")
     else line (evs sim (.dropBegin :: List.replicate (dropProg Cfg.gen sim.st.drv).length .dropStep)) "ok"
   | ["end"] => line sim "ok"
   | _ => (sim, "bad-op")
